@@ -257,7 +257,7 @@ func (r Rename) String() string {
 
 // Plan compares the packages with the snapshot and returns, for files in which a renamed identifier occurs, their
 // alpha-renamed content, together with the list of renames. Both are empty when every name of the snapshot is present.
-func Plan(snap *Snapshot, pkgs []*packages.Package, rel func(*types.Package) string) (map[string][]byte, []Rename) {
+func Plan(snap *Snapshot, pkgs []*packages.Package, rel func(*types.Package) string, prior map[string][]byte) (map[string][]byte, []Rename) {
 	overlay := map[string][]byte{}
 	var all []Rename
 	for _, pk := range pkgs {
@@ -291,9 +291,13 @@ func Plan(snap *Snapshot, pkgs []*packages.Package, rel func(*types.Package) str
 			}
 		}
 		for file, es := range edits {
-			src, err := os.ReadFile(file)
-			if err != nil {
-				continue
+			src := append([]byte{}, prior[file]...)
+			if len(src) == 0 {
+				b, err := os.ReadFile(file)
+				if err != nil {
+					continue
+				}
+				src = b
 			}
 			sort.Slice(es, func(i, j int) bool { return es[i].off > es[j].off })
 			last := -1
